@@ -263,7 +263,10 @@ class WriterExec:
                 return Opaque(self.seg(n))
             idx = self.ev(sl, env)
             if isinstance(n.value, ast.Name) and not isinstance(base, SV):
-                return Elem(n.value.id, idx)
+                cont = n.value.id
+                if isinstance(base, Opaque) and base.src.isidentifier():
+                    cont = base.src        # an alias of another container
+                return Elem(cont, idx)
             return Opaque(self.seg(n))
         if isinstance(n, ast.Attribute):
             base = self.ev(n.value, env)
@@ -397,6 +400,32 @@ class WriterExec:
                 # ctx is the lexical nesting of the write, not the path
                 o_['ctx'] = list(st['ctx'])
             return ra + rb
+        if isinstance(s, ast.For) and isinstance(s.iter, (ast.List,
+                                                         ast.Tuple)):
+            # a loop over a literal sequence is unrolled
+            if st['partial']:
+                raise Unsupported('a loop starts in the middle of a line '
+                                  '(line %d)' % s.lineno)
+            for e in s.iter.elts:
+                b = self.copy(st)
+                if isinstance(s.target, ast.Name):
+                    b['env'][s.target.id] = self.ev(e, b['env'])
+                elif isinstance(s.target, (ast.Tuple, ast.List)) and \
+                        isinstance(e, (ast.Tuple, ast.List)) and len(
+                            e.elts) == len(s.target.elts) and all(
+                            isinstance(t_, ast.Name)
+                            for t_ in s.target.elts):
+                    for t_, v_ in zip(s.target.elts, e.elts):
+                        b['env'][t_.id] = self.ev(v_, b['env'])
+                else:
+                    raise Unsupported('loop target at line %d' % s.lineno)
+                outs = self.block(s.body, [b])
+                for o in outs:
+                    if o['partial']:
+                        raise Unsupported('a loop iteration ends in the '
+                                          'middle of a line (line %d)' %
+                                          s.lineno)
+            return [st]
         if isinstance(s, ast.For):
             if st['partial']:
                 raise Unsupported('a loop starts in the middle of a line '
